@@ -106,6 +106,26 @@ cks_orders(const unsigned char *p, size_t cs, uint32_t value)
     return m;
 }
 
+/* Interpretations of a region image (the statement fixes neither which of
+ * checksum and data image comes first nor the byte order of the checksum).
+ * Bits 0/1: checksum first ([0,cs) checksum, [cs,cs+N) data), little/big
+ * endian; bits 2/3: data first ([0,N) data, [N,N+cs) checksum).  With `expect`
+ * the interpretations under which the region holds exactly (expect,
+ * checksum(expect)); without, those under which it is consistent in itself. */
+static int
+region_interps(const unsigned char *img, size_t cs, size_t N, int ck, const unsigned char *expect)
+{
+    int m = 0;
+    for (int lay = 0; lay < 2; ++lay) {
+        const unsigned char *data = img + (lay ? 0 : cs);
+        const unsigned char *sum = img + (lay ? N : 0);
+        if (expect && memcmp(data, expect, N) != 0)
+            continue;
+        m |= cks_orders(sum, cs, ref_checksum(ck, data, N)) << (2 * lay);
+    }
+    return m;
+}
+
 static uint16_t
 cb_crc16(const unsigned char *d, size_t n, uint16_t init)
 {
@@ -359,7 +379,7 @@ make_pair(unsigned char *P, unsigned char *Q, size_t N, int pair)
 struct world {
     struct inst in;
     unsigned char P[NMAX], Q[NMAX], New[NMAX];
-    int orders; /* byte order(s) the fault-free store of P used */
+    int orders; /* placement/byte order(s) (region_interps) the fault-free store of P used */
     bool ready;
 };
 
@@ -382,9 +402,8 @@ world_make(struct world *w, const struct cfg *c, int pair, size_t off, size_t le
     const int how = run_op(&w->in, OP_STORE, src, 0, 0, PLAN_NONE, 0, 0, &rc);
     free(src);
     const size_t cs = cks_size(c->ck);
-    w->orders = cks_orders(M.img, cs, ref_checksum(c->ck, w->P, c->N));
-    if (how != 0 || M.outside || rc != PERSISTENT_ACCESS_SUCCESS
-        || memcmp(M.img + cs, w->P, c->N) != 0 || w->orders == 0) {
+    w->orders = region_interps(M.img, cs, c->N, c->ck, w->P);
+    if (how != 0 || M.outside || rc != PERSISTENT_ACCESS_SUCCESS || w->orders == 0) {
         precondition_failed("fault-free store of the previous image");
         return;
     }
@@ -450,8 +469,7 @@ crash_cases(const struct cfg *c, int op, size_t off, size_t len)
             if (ok) {
                 const int how = world_op(&w, c, op, off, len, PLAN_NONE, 0, 0, &rc);
                 if (how != 0 || M.outside || rc != PERSISTENT_ACCESS_SUCCESS
-                    || memcmp(M.img + cs, w.New, c->N) != 0
-                    || (cks_orders(M.img, cs, ref_checksum(c->ck, w.New, c->N)) & w.orders) == 0) {
+                    || (region_interps(M.img, cs, c->N, c->ck, w.New) & w.orders) == 0) {
                     precondition_failed("fault-free store of the new image");
                     ok = false;
                 } else {
@@ -497,8 +515,7 @@ crash_cases(const struct cfg *c, int op, size_t off, size_t len)
                     if (run_op(&w.in, OP_VALIDATE, NULL, 0, 0, PLAN_NONE, 0, 0, &v) != 0) {
                         /* validation did not return: it did not succeed */
                     } else if (v == PERSISTENT_ACCESS_SUCCESS) {
-                        const bool match =
-                            (cks_orders(M.img, cs, ref_checksum(c->ck, M.img + cs, c->N)) & w.orders) != 0;
+                        const bool match = (region_interps(M.img, cs, c->N, c->ck, NULL) & w.orders) != 0;
                         if (!match)
                             FAIL("C11/valid-implies-checksum-matches",
                                  "validate succeeded after the cut although the checksum octets do "
